@@ -6,7 +6,7 @@ from .spec import CLASSES, CONTRACTS, Ctx, find_field, exc_is, EXC_BASES, wrap
 from .state import State, Unbound
 from .formula import FA, EX
 from .exec import Executor, Res, Out, bind, TDictDisplay, TType
-from .calls import TRange, TItems, TValues, TExc, dotted
+from .calls import TRange, TItems, TValues, TExc, TKeys, dotted
 
 
 def outs_from(rs, kind='fall'):
@@ -341,6 +341,11 @@ class FnExecutor(Executor):
             k = d_keys(t, v.z)
             st.assume(d_wf(t, v.z, FA))
             return l_len(t.keys_t, k), (lambda i: SV(t.key, z3.Select(l_at(t.keys_t, k), i)))
+        if isinstance(t, TKeys):
+            d = t.d
+            k = d_keys(d, v.z)
+            st.assume(d_wf(d, v.z, FA))
+            return l_len(d.keys_t, k), (lambda i: SV(d.key, z3.Select(l_at(d.keys_t, k), i)))
         if isinstance(t, TItems):
             d = t.d
             k = d_keys(d, v.z)
